@@ -177,12 +177,17 @@ class ASPath(Attribute):
     def __eq__(self, other: object) -> bool:
         if not isinstance(other, ASPath):
             return False
-        return (
-            self.ID == other.ID
-            and self.FLAG == other.FLAG
-            and self._asn4 == other._asn4
-            and self._packed == other._packed
-        )
+        # the path, not how it happens to be packed: the same AS_PATH is kept with 2-byte ASNs
+        # when it comes from the configuration and with 4-byte ASNs when it is decoded on an
+        # ASN4 session, and comparing the bytes (and the width) made those two unequal
+        if self.ID != other.ID or self.FLAG != other.FLAG:
+            return False
+        if self._asn4 == other._asn4 and self._packed == other._packed:
+            return True
+        return self._segments_value() == other._segments_value()
+
+    def _segments_value(self) -> tuple[tuple[int, tuple[int, ...]], ...]:
+        return tuple((segment.ID, tuple(int(asn) for asn in segment)) for segment in self.aspath)
 
     def __ne__(self, other: object) -> bool:
         return not self.__eq__(other)
